@@ -184,6 +184,80 @@ CLAIMED = {
              "property's quantifier (file contents), reported as a note."),
 }
 
+# Later additions (DESIGN 12.4): what the entries above call "not yet one Lean induction" has since been proved.
+CANCEL = (" Write faults are three-valued (pass / fail / cancel): the theorems also cover cancellation of the waiting task "
+          "at any transport write (asyncio.CancelledError raised at that await, finally blocks still run).")
+CLAIMED["C03"]["text"] = (
+    "Lean theorems recv_lib_only_or_cancelled / history_lib_only_or_cancelled / history_lib_only: from every state satisfying the "
+    "reachable-state invariant, for every line, configuration, local time and schedule of write faults and cancellations, the only "
+    "non-library exception one iteration of listen (or a send) can end in is the CancelledError of a cancellation injected at a "
+    "write of that very step, none at all without one, and the invariant is re-established (the gateway stays usable), by "
+    "induction over histories of receives and sends; proved compositionally (one lemma per combinator, handler, decorator, "
+    "dispatch) over the handler chains, message_buffer flags and except tuples regenerated from the code, with the conversions' "
+    "error classes shown caught (conversions_caught, incl. IndexError from awesomeversion after fix b0bff1e). Tied to the real "
+    "Gateway by differential histories (absurd payloads, malformed stream, full registries, probes after every error, cancelled writes).")
+CLAIMED["C03"]["note"] = NOTE_COMMON + ("Modelled: exception propagation through try/finally/except. Stream-transport bytes are covered by "
+                                       "C17's model; here they are exercised on the real code only.")
+CLAIMED["C04"]["text"] = (
+    "Refinement to an abstract specification: registry_refines_spec proves that registry and active protocol after ANY operation "
+    "(every line, version, environment, fault/cancellation schedule, buffer contents) are specStep of the decoded line, a pure "
+    "function with one clause per report kind (Model/RegistrySpec.lean, no handler is called); history_refines_spec lifts it by "
+    "induction to all histories, registry_independent_of_faults_and_buffers and value_is_last_set (the stored value is the payload "
+    "of the last set for that key since the last presentation of that node or child) follow. Plus yield_is_decoded, "
+    "missing_node_names_it, missing_child_names_it, rejected_line_changes_nothing (Faithful judgement), other_records_untouched, "
+    "send_keeps_registry and the per-report update theorems. Tied to the real Gateway on the registry view (incl. a direct "
+    "comparison of the implementation's registry with specStep through the driver) with an independent reference registry as oracle.")
+CLAIMED["C04"]["note"] = NOTE_COMMON + ("Not stated in Lean: the analogue of value_is_last_set for battery / sketch / heartbeat attributes "
+                                       "(the same argument on the spec gives them); they are the oracle's.")
+CLAIMED["C04"]["technique"] = "Lean 4 proof (refinement to an abstract registry specification, induction over histories) + differential correspondence"
+CLAIMED["C06"]["text"] = (
+    "writes = expectedWrites as one equation: Model/WriteSpec.lean states the reaction table as a pure function (one clause per "
+    "reaction, in written order; no handler is run) and writes_eq_expected / recv_ / history_writes_eq_expected prove that when no "
+    "write fails the lines written by a step are exactly expectedWrites, each successful; writes_eq_attempts proves under EVERY "
+    "schedule of failing and cancelled writes that the attempts are exactly expectedAttempts (first segment up to the first "
+    "non-completing write, the version query in any case because it is sent from finally, the request only if nothing failed), the "
+    "schedule is consumed one entry per attempt and the outcome is the exception of the last non-completing attempt "
+    "(expectedExn_is_last). Plus writes_are_reactions, reactions_not_parked, only_presentation_markers_added and the per-reaction "
+    "theorems. Tied to the real Gateway on the writes view, with the reaction table restated in Python as oracle and the driver "
+    "evaluating expectedAttempts before every received line.")
+CLAIMED["C06"]["note"] = NOTE_COMMON + ("Hypothesis ParkedSets (what is parked for the sender are set commands) is shown for every reachable state "
+                                       "(parkedSets_reachable). time.localtime() is an input of the step (the harness substitutes the `time` name inside "
+                                       "protocol_14 in its own process).")
+CLAIMED["C06"]["technique"] = "Lean 4 proof (refinement of all writes of a step to a specification function, per-handler summaries, all fault schedules) + generated flags/chains + differential correspondence"
+CLAIMED["C08"]["text"] += CANCEL
+CLAIMED["C10"]["text"] = (
+    "History-level Lean inductions: episode_invariant (along any re-arm-free stretch of any history the gateway's own write "
+    "attempts and the marker of node n form a legal run of a two-state automaton), one_per_episode / between_rearms (at most one "
+    "request written successfully per episode, none attempted after it), rearm_step, no_request_before_20 (under 1.4/1.5 no own "
+    "write is a presentation request and no marker changes), through a dedicated traversal of the generated dispatch "
+    "(Lemmas/Episode.lean) with encode_inj (the wire form determines the message); step level: all_missing_paths_wrapped, "
+    "request_when_unmarked, aborted_request_not_recorded (a request whose write failed OR was cancelled does not count as sent), "
+    "silent_when_marked, presentation_rearms, independent. Tied to the real Gateway by histories over known/unknown nodes with "
+    "failing and cancelled request writes, version reports inside episodes, and a real task.cancel() on a stalled write.")
+CLAIMED["C10"]["note"] = NOTE_COMMON + ("Counted are requests the gateway writes on its own in receive steps; requests the application passes to send() "
+                                       "are written directly without a marker. Hypothesis: the reachable-state invariant Inv (C07's SbufInv + IbufWF).")
+CLAIMED["C10"]["technique"] = "Lean 4 proof (episode automaton invariant by induction over histories, exact decorator semantics) + generated chains + differential correspondence"
+CLAIMED["C11"]["text"] += CANCEL
+CLAIMED["C12"]["text"] = CLAIMED["C12"]["text"].replace("or the transport error;", "or the transport error, or the caller's own cancellation at that write (never silently);")
+CLAIMED["C15"]["text"] += (" For ANY operation sequence: gap_is_fatal (a crash point at which the live file is missing or empty is fatal for every "
+                           "pair of non-empty registries) and backup_first_not_crash_safe; saves made by the Persistence object that loaded the "
+                           "old file (six layouts of the old file) are instrumented too, and unlogged changes of the live file become crash states.")
+CLAIMED["C16"]["text"] = CLAIMED["C16"]["text"].replace("exit_clean, ", "exit_clean, cancel_exit_clean (leaving by cancellation of the task that runs the context), ")
+CLAIMED["C16"]["text"] += " Two sessions on the same objects are run for every built-in transport kind."
+CLAIMED["C19"]["text"] = (
+    "Whole histories, both cases of the property: history_stable (same major line: equal outcomes and writes at every step and "
+    "similar states, by induction over any history with faults, cancellations and sends, via a non-interference traversal) and "
+    "history_stable_across_lines (1.x vs 2.x: from states that hold no presentation-request marker, with the version known, every "
+    "decoded type existing in the older protocol and not gateway-ready, and the older run never ending a step in a missing "
+    "node/child error) with history_stable_across_lines_handlers (hypothesis on the handler body's error, also before a version is "
+    "known); heartbeat_differs_in_sleeping_only (the stated exception is only the stated one); tables_monotone, "
+    "decode_version_independent, chains_agree_same_line from the generated tables. Tied to two real gateways fed the same history "
+    "under every ordered pair of versions, incl. codec-level lines and cross-line re-presentations.")
+CLAIMED["C19"]["note"] = NOTE_COMMON + ("Across the lines the observation-only hypothesis needs 'version known' (a 2.x gateway always knows its version): "
+                                       "with no version known a failing version-query write in `finally` masks the older run's missing error (witness in DESIGN 12.4).")
+CLAIMED["C19"]["technique"] = "Lean 4 proof (non-interference traversal + induction over histories; dispatch equality from generated tables) + paired differential runs"
+
+
 PENDING_REASON = "check not built yet in this round (model and theorems in progress); see DESIGN.md section 7"
 
 checks = []
@@ -219,7 +293,7 @@ manifest = {
     ],
     "checks": checks,
     "notes": "All properties are decided by machine-checked proof in Lean 4 about a model tied to the code (DESIGN.md sections 2-5). "
-             "Fifteen genuine defects were repaired in /repo as 'fix:' commits (known-findings.txt); C15's defect is a recorded known finding.",
+             "Sixteen genuine defects were repaired in /repo by 17 'fix:' commits, two of them (F15, F16) found by this framework (known-findings.txt); C15's defect is a recorded known finding.",
     "not_applicable": [{"property_id": pid, "reason": PENDING_REASON} for pid in sorted(props) if pid not in CLAIMED],
 }
 with open(os.path.join(HERE, "MANIFEST.json"), "w") as f:
